@@ -557,15 +557,38 @@ fn answers_opt(bytes: &[u8], ids: &[u16], q: usize, require_qr: bool) -> Result<
     Ok(())
 }
 
+/// The run's context, for the one violation that is found where no context is at hand: a request
+/// the subject put on the wire that is not a well-formed DNS message carrying one of the harness's
+/// requests. Such octets cannot be attributed to a caller, so the execution cannot go on; the
+/// violation is recorded and the run ends with its verdict lines at once.
+static CTX: std::sync::OnceLock<Arc<Ctx>> = std::sync::OnceLock::new();
+
+fn wire_violation(what: &str, cause: &str, detail: &str, bytes: &[u8]) -> ! {
+    match CTX.get() {
+        Some(ctx) => {
+            ctx.violation(
+                &format!("C15|{what}|request-on-the-wire|{cause}"),
+                &format!("the {what} transport put octets on the wire that are not the request a caller handed to it ({cause}: {detail}): {}", hex(bytes)),
+                json!({"part": "wire", "transport": what, "cause": cause, "octets": hex(bytes)}),
+            );
+            ctx.finish_quiet()
+        }
+        None => {
+            eprintln!("MACHINERY: {what}: request written by the subject is damaged ({cause}) and no context is registered");
+            std::process::exit(2)
+        }
+    }
+}
+
 /// (caller index, id, question index) of a request message written by the
-/// subject. A message that is not one of ours is a machinery error.
+/// subject. Every request the harness hands to a transport is a query with one of two known
+/// questions and the caller's index in the Z/AD/CD bits; octets that do not parse, or parse to
+/// something else, mean the transport damaged the request on its way to the wire (the peer cannot
+/// answer *that caller's request* any more): a C15 violation, reported at once.
 fn parse_request(bytes: &[u8], what: &str) -> (usize, u16, usize) {
     let m = match wire::read_message(bytes) {
         Ok(m) => m,
-        Err(e) => {
-            eprintln!("MACHINERY: {what}: request written by the subject does not parse: {e} {}", hex(bytes));
-            std::process::exit(2);
-        }
+        Err(e) => wire_violation(what, "does-not-parse", &e.to_string(), bytes),
     };
     let idx = ((m.flags >> 4) & 7) as usize;
     let q = (0..2).find(|q| {
@@ -575,10 +598,7 @@ fn parse_request(bytes: &[u8], what: &str) -> (usize, u16, usize) {
     });
     match q {
         Some(q) if m.flags & 0x8000 == 0 => (idx, m.id, q),
-        _ => {
-            eprintln!("MACHINERY: {what}: unexpected request on the wire {}", hex(bytes));
-            std::process::exit(2);
-        }
+        _ => wire_violation(what, "is-not-a-request-of-this-run", "question or QR bit differ from every request handed to the transport", bytes),
     }
 }
 
@@ -4205,10 +4225,7 @@ async fn run_xfr(g: &Global, cfg: &XfrCfg, ch: Arc<Mutex<Chooser>>) {
         for f in take_frames(&st) {
             let m = match wire::read_message(&f) {
                 Ok(m) => m,
-                Err(e) => {
-                    eprintln!("MACHINERY: xfr: request on the wire does not parse: {e}");
-                    std::process::exit(2);
-                }
+                Err(e) => wire_violation("xfr", "does-not-parse", &e.to_string(), &f),
             };
             let idx = ((m.flags >> 4) & 7) as usize;
             if idx == XFR_CALLER {
@@ -4975,6 +4992,7 @@ fn multi_cfgs() -> Vec<MultiCfg> {
 
 fn main() {
     let ctx = Ctx::new("C15", "model_checking");
+    let _ = CTX.set(ctx.clone());
     if !domain::net::client::verif_rand::set_backend(rand_backend) {
         eprintln!("MACHINERY: cannot register the random backend");
         std::process::exit(2);
